@@ -1,7 +1,9 @@
 (* C13 — ConcurrentPreps counter equals the number of in-flight Prep slices.
    Property theorems only; the model is theories/PrepQueue.v (the definitions the correspondence
-   executes: [run_stage] = queueing_counter on every event of the stream with a fresh
-   QueueingCounterContext, then its drain()), proofs are in theories/PrepQueue_proofs.v.
+   executes: [run_stage si keep] = queueing_counter on every event of the stream with a fresh
+   QueueingCounterContext(sorted_input = si), then its drain()), proofs are in theories/PrepQueue_proofs.v.
+   si = true is the default pipeline (the clock-alignment stage in front sorts by ts); si = false ("hold"
+   mode) is what acelyzer registers under -M / --no_mp_sync, where nothing sorts in front of the stage.
 
    Vocabulary: [preps_of p evs] = the intervals [ts, ts+dur) of the slices of pid p that the stage
    recognises as Prep (ph "X", dialect entry acc_compute_prep), in arrival order;
@@ -15,8 +17,8 @@ Import ListNotations.
 From AiuModel Require Import Base PrepQueue PrepQueue_proofs.
 Local Open Scope Z_scope.
 
-(* (1) The counter is right.  If the stage does not raise and the Prep slices of pid p arrive in
-   non-decreasing order of start, then for pid p:
+(* (1) The counter is right, default mode.  If the stage does not raise and the Prep slices of pid p
+   arrive in non-decreasing order of start, then for pid p:
      - sample times are strictly increasing,
      - every sample's value is the number of Prep slices with start <= t < end at its time,
      - the step function denoted by the samples equals that number at EVERY time t,
@@ -28,7 +30,7 @@ Local Open Scope Z_scope.
    does not count in [count_at], and create_counter's guard makes it leave no trace in the series. *)
 Theorem C13_counter_correct :
   forall (keep : bool) (evs : list ev) (r : list (list out) * list out) (p : Z),
-    run_stage keep evs = Ok r ->
+    run_stage true keep evs = Ok r ->
     StronglySorted (fun a b => (fst a <= fst b)%Q) (preps_of p evs) ->
     let W := samples_of p (all_out r) in
     let I := preps_of p evs in
@@ -44,16 +46,44 @@ Theorem C13_counter_correct :
 Proof. exact counter_correct_full. Qed.
 Print Assumptions C13_counter_correct.
 
+(* (1') The counter is right, hold mode (-M): the same seven conclusions for ANY arrival order of the
+   Prep slices -- no sortedness hypothesis at all.  The stored breakpoint list stays strictly increasing and
+   denotes count_at of the intervals seen so far (C13_queue_step_denotation applies wherever the new start
+   lies, because nothing has been handed out yet); drain() emits it. *)
+Theorem C13_counter_correct_any_order :
+  forall (keep : bool) (evs : list ev) (r : list (list out) * list out) (p : Z),
+    run_stage false keep evs = Ok r ->
+    let W := samples_of p (all_out r) in
+    let I := preps_of p evs in
+    StronglySorted (fun a b : bp => (fst a < fst b)%Q) W /\
+    (forall t c, In (t, c) W -> c = count_at I t) /\
+    (forall t, den 0 W t = count_at I t) /\
+    (forall iv, In iv I -> (fst iv < snd iv)%Q ->
+       (exists x, In x W /\ (fst x == fst iv)%Q) /\ (exists x, In x W /\ (fst x == snd iv)%Q)) /\
+    (forall t1 t2, (t1 <= t2)%Q -> (forall x, In x W -> ~ ((t1 < fst x)%Q /\ (fst x <= t2)%Q)) ->
+                   count_at I t1 = count_at I t2) /\
+    lastc 0 W = 0 /\
+    (Forall (fun iv => ~ (fst iv < snd iv)%Q) I -> W = []).
+Proof. exact counter_correct_full_any_order. Qed.
+Print Assumptions C13_counter_correct_any_order.
+
+(* (1'') In hold mode the callbacks hand out no counter sample (everything comes from drain()). *)
+Theorem C13_hold_callbacks_silent :
+  forall (keep : bool) (evs : list ev) (r : list (list out) * list out) (p : Z),
+    run_stage false keep evs = Ok r -> samples_of p (List.concat (fst r)) = [].
+Proof. exact hold_callbacks_silent. Qed.
+Print Assumptions C13_hold_callbacks_silent.
+
 (* (2) Prep slices are removed from the stream unless keep_prep; every other event is handed on
-   unchanged, exactly once, in order (and with keep_prep the Prep slices are too). *)
+   unchanged, exactly once, in order (and with keep_prep the Prep slices are too).  Both modes, any order. *)
 Theorem C13_prep_removed_iff_not_keep :
-  forall (keep : bool) (evs : list ev) (r : list (list out) * list out),
-    run_stage keep evs = Ok r ->
+  forall (si keep : bool) (evs : list ev) (r : list (list out) * list out),
+    run_stage si keep evs = Ok r ->
     passed (all_out r) = filter (fun e => keep || negb (is_prep_ev e)) evs.
 Proof. exact prep_removed. Qed.
 Print Assumptions C13_prep_removed_iff_not_keep.
 
-(* (3) The sortedness hypothesis of (1) is what the pipeline delivers: a stream sorted by ts
+(* (3) The sortedness hypothesis of (1) is what the default pipeline delivers: a stream sorted by ts
    (MpSyncTightContext.drain sorts by ts before anything reaches queueing_counter) is start-sorted
    for every pid. *)
 Theorem C13_sorted_by_ts_suffices :
@@ -78,12 +108,12 @@ Print Assumptions C13_queue_step_denotation.
 
 (* (5) The guard of create_counter (added by the fix of the zero-duration defect found by this check):
    an interval with end <= start emits no sample and leaves every pid's stored queue unchanged (the
-   pid only gets its dict entry, which drain() turns into nothing). *)
+   pid only gets its dict entry, which drain() turns into nothing).  Both modes. *)
 Theorem C13_empty_interval_ignored :
-  forall (qs : queues) (p : Z) (s e : Q),
+  forall (si : bool) (qs : queues) (p : Z) (s e : Q),
     (e <= s)%Q ->
-    snd (create_counter qs p s e) = [] /\
-    forall p', qof p' (fst (create_counter qs p s e)) = qof p' qs.
+    snd (create_counter si qs p s e) = [] /\
+    forall p', qof p' (fst (create_counter si qs p s e)) = qof p' qs.
 Proof. exact empty_interval_ignored. Qed.
 Print Assumptions C13_empty_interval_ignored.
 
@@ -105,7 +135,7 @@ Definition qz (n : Z) : Q := n # 1.
 
 Example C13_nonvacuous :
   exists r,
-    run_stage false ex_stream = Ok r /\
+    run_stage true false ex_stream = Ok r /\
     StronglySorted (fun a b => (e_ts a <= e_ts b)%Q) ex_stream /\
     map (fun iv => (Qred (fst iv), Qred (snd iv))) (preps_of 0 ex_stream)
       = [(qz 0, qz 10); (qz 2, qz 5); (qz 5, qz 7); (qz 5, qz 12)] /\
@@ -127,7 +157,7 @@ Qed.
 (* the input that broke the property before the fix: a Prep slice with dur = 0 after a normal one, and one on
    a pid of its own; hypotheses of (1) hold (ts-sorted) and the empty slices leave no trace *)
 Example C13_zero_duration :
-  exists r, run_stage false zero_witness = Ok r /\
+  exists r, run_stage true false zero_witness = Ok r /\
     StronglySorted (fun a b => (e_ts a <= e_ts b)%Q) zero_witness /\
     map (fun x => (Qred (fst x), snd x)) (samples_of 0 (all_out r)) = [(qz 0, 1); (qz 4, 0)] /\
     samples_of 7 (all_out r) = [] /\ passed (all_out r) = [].
@@ -143,8 +173,38 @@ Example C13_step_nonvacuous :
   let P : list bp := [(qz 10, 0)] in
   Forall (fun x : bp => (fst x < qz 5)%Q) R /\ Forall (fun x : bp => (qz 5 <= fst x)%Q) M /\
   Forall (fun x : bp => (fst x < qz 7)%Q) M /\ Forall (fun x : bp => (qz 7 <= fst x)%Q) P /\
-  update_queues (qz 5) (qz 7) (R ++ M ++ P) = (R, new_list (lastc 0 R) M P (qz 5) (qz 7)) /\
+  update_queues true (qz 5) (qz 7) (R ++ M ++ P) = (R, new_list (lastc 0 R) M P (qz 5) (qz 7)) /\
+  update_queues false (qz 5) (qz 7) (R ++ M ++ P) = ([], R ++ new_list (lastc 0 R) M P (qz 5) (qz 7)) /\
   new_list (lastc 0 R) M P (qz 5) (qz 7) = [(qz 5, 2); (qz 7, 1); (qz 10, 0)].
 Proof.
   cbv zeta. repeat split; try (repeat constructor; unfold Qlt, Qle; cbn; (reflexivity || discriminate)).
+Qed.
+
+(* the stream of the replay that led to the fix of the -M defect: [1013,1015) [1015,1024) and then, listed
+   late, [1014,1023).  It is NOT start-sorted (so (1) says nothing about it).  In hold mode -- the mode the
+   repaired acelyzer uses under -M -- the stage does not raise, the callbacks are silent and drain() gives
+   the right series (two in flight from 1014 on, still two at 1015 where one ends and one starts); a context
+   that believes its input sorted hands (1013,1) out early and then counts 1 at 1014: the defect. *)
+Example C13_any_order_nonvacuous :
+  ~ StronglySorted (fun a b => (fst a <= fst b)%Q) (preps_of 0 late_witness) /\
+  (exists r,
+    run_stage false false late_witness = Ok r /\
+    map (fun iv => (Qred (fst iv), Qred (snd iv))) (preps_of 0 late_witness)
+      = [(qz 1013, qz 1015); (qz 1015, qz 1024); (qz 1014, qz 1023)] /\
+    fst r = [[]; []; []] /\
+    map (fun x => (Qred (fst x), snd x)) (samples_of 0 (all_out r))
+      = [(qz 1013, 1); (qz 1014, 2); (qz 1015, 2); (qz 1023, 1); (qz 1024, 0)]) /\
+  (exists r,
+    run_stage true false late_witness = Ok r /\
+    map (fun x => (Qred (fst x), snd x)) (samples_of 0 (all_out r))
+      = [(qz 1013, 1); (qz 1014, 1); (qz 1015, 2); (qz 1023, 1); (qz 1024, 0)] /\
+    count_at (preps_of 0 late_witness) (qz 1014) = 2).
+Proof.
+  split; [|split].
+  - assert (Hp : preps_of 0 late_witness = [(qz 1013, qz 1015); (qz 1015, qz 1024); (qz 1014, qz 1023)])
+      by (vm_compute; reflexivity).
+    rewrite Hp. intros H. inversion H as [|? ? Hs _]; subst. inversion Hs as [|? ? _ Hf]; subst.
+    inversion Hf as [|? ? Hle _]; subst. vm_compute in Hle. apply Hle. reflexivity.
+  - eexists. split; [vm_compute; reflexivity|]. repeat split; vm_compute; reflexivity.
+  - eexists. split; [vm_compute; reflexivity|]. repeat split; vm_compute; reflexivity.
 Qed.
